@@ -144,10 +144,12 @@ Fixpoint fill_zeros (syms : list string) (max_order : nat) (acc : out) : out :=
     fill_zeros t max_order acc'
   end.
 
+Definition fill (max_order : option nat) (acc : out) : out :=
+  match max_order with Some m => fill_zeros polar_symbols m acc | None => acc end.
+
 Definition setter (max_order : option nat) (params : pydict) : result out :=
   if valid_keys (default_probe_keys ++ polar_symbols ++ map fst polar_aliases) params then
-    let acc := process_items params [] in
-    Ok (match max_order with Some m => fill_zeros polar_symbols m acc | None => acc end)
+    Ok (fill max_order (process_items params []))
   else ValueErr.
 
 (* ---- reading a coefficient the way every consumer does: coefs.get(name, 0.0) *)
